@@ -328,7 +328,7 @@ func c13Dispatch(ctx *core.Ctx, reqs []*c13Req, nproc int) ([]c13Resp, error) {
 						p.kill()
 						p = nil
 					}
-				case <-time.After(c13ReqLimit + 1500*time.Millisecond):
+				case <-time.After(c13ReqLimit + 4*time.Second):
 					resps[i] = c13Resp{Class: "Timeout", Msg: "no answer"}
 					p.kill()
 					p = nil
